@@ -254,4 +254,38 @@ example : sessionData E0 [0x03, 0xFF, 0xFF] = .closed := by decide
 example : sessionData E0 (encodeMsg E0 ⟨.request, 2 ^ 32 + 5, [97], [1], false⟩) = .delivered 5 [97] [1] :=
   session_delivers_encoded E0 _ (by decide) (by decide) (by simp [E0]) (by simp [E0])
 
+
+/-! ### third round: stream reassembly in the acceptor, large compressed payloads -/
+
+/-- **Fragmentation independence**: however the network cuts the client's byte stream into
+fragments (single bytes, inside a header, inside a body, several packets in one segment), the
+sequence of framed packets `tcpPlayerConn.GetNextMessage` hands to the session — and how the
+stream ends — is that of the unfragmented byte string: it is a function of the concatenation only. -/
+theorem stream_fragmentation_independent (fuel : Nat) (fs : List Bytes) :
+    readStreamF fuel fs = readStream fuel fs.flatten :=
+  readStreamF_flatten fuel fs
+
+/-- the bound on the number of `GetNextMessage` calls the model driver uses is never reached -/
+theorem stream_fuel_enough (fuel : Nat) (s : Bytes) (h : s.length < fuel) : (readStream fuel s).2 ≠ .fuel :=
+  readStream_fuel_enough fuel s h
+
+/-- **Stream round trip under any fragmentation**: valid packets framed by the encoder and sent
+in ANY fragmentation are handed over one frame per call, each frame decodes (packet decoder) to
+exactly its packet, and the stream ends cleanly (`closed`, no error). -/
+theorem fragmented_stream_roundtrip (ps : List Packet) (hv : ∀ p ∈ ps, p.Valid)
+    (fs : List Bytes) (hfs : fs.flatten = ps.flatMap frameBytes) (fuel : Nat) (hf : ps.length < fuel) :
+    readStreamF fuel fs = (ps.map frameBytes, .closed) ∧
+    ∀ p ∈ ps, decodePackets (frameBytes p) = .ok [p] := by
+  constructor
+  · rw [readStreamF_flatten, hfs]
+    exact readStream_frames ps fuel hv hf
+  · intro p hp
+    have := (packets_roundtrip [p] (by intro q hq; simp only [List.mem_singleton] at hq; rw [hq]; exact hv p hp)).2
+    simpa using this
+
+/-- non-vacuity: a 3-byte-body packet delivered one byte at a time -/
+example : readStreamF 2 [[4], [0], [0], [3], [7], [8], [9]] = ([[4, 0, 0, 3, 7, 8, 9]], .closed) := by decide
+/-- a body cut short is an error, not a message -/
+example : readStreamF 2 [[4, 0], [0, 3, 7], [8]] = ([], .err) := by decide
+
 end Cell2v.Props.C06
